@@ -527,12 +527,77 @@ def ns1(ctx):
                 fam.append(l)
                 stack.append(l)
         names, outer = own_ns(g)
+        # local lambdas that take a namespace themselves and hand it on to an engine function
+        # (`const auto lookup = [&](const std::string& ns) { return Lookup<...>(cls, ns); }`)
+        lam_param = {}
+        for l in fam[1:]:
+            ps = [i_ for i_, p_ in enumerate(l.params) if p_[0] and
+                  (p_[1] or '').replace('const ', '').replace(' &', '').replace('&', '').strip() in
+                  ('std::string', 'std::basic_string<char>')]
+            if len(ps) == 1 and l.body is not None:
+                pn = l.params[ps[0]][0]
+                hands_on = False
+                for c in l.body.walk():
+                    if c.kind in CALL_KINDS or c.kind in CTOR_KINDS:
+                        t = callee_func(prog, l, c)
+                        if t is not None and id(t) in takers:
+                            a = c.call_args()
+                            if takers[id(t)] < len(a) and a[takers[id(t)]] is not None and \
+                                    member_path(strip_casts(a[takers[id(t)]])) == pn:
+                                hands_on = True
+                if hands_on:
+                    lam_param[id(l)] = (ps[0], pn)
+        lam_vars = {}
+        if lam_param:
+            for h in fam:
+                if h.body is None:
+                    continue
+                for v in h.body.walk(into_lambdas=False):
+                    if v.kind == 'VarDecl' and v.name and v.kids and v.kids[-1] is not None:
+                        for le in v.kids[-1].walk(into_lambdas=False):
+                            if le.kind == 'LambdaExpr':
+                                lf = prog.lambda_func(h, le)
+                                if lf is not None and id(lf) in lam_param:
+                                    lam_vars[v.name] = lf
+
+        def judge(h, c, arg, tname):
+            nonlocal sites
+            e = strip_casts(arg)
+            # a copy `std::string{ns}` of the namespace is the namespace
+            while e is not None and e.kind in CTOR_KINDS and len([k for k in e.kids if k is not None]) == 1:
+                e = strip_casts([k for k in e.kids if k is not None][0])
+            mp = member_path(e) if e is not None else None
+            sites += 1
+            own_lambda = {lam_param[id(h)][1]} if id(h) in lam_param else set()
+            if names:
+                ok = mp in names or mp in own_lambda
+                why = 'its own namespace parameter'
+            elif g.record in ('optree::PyTreeSpec', 'optree::PyTreeIter') and not _static_member(prog, g):
+                ok = mp in ('this.m_namespace', 'm_namespace') or mp in own_lambda
+                why = 'this->m_namespace'
+            else:
+                # no namespace of its own (unpickling, bindings): anything but a constant
+                ok = e is not None and e.kind in ('DeclRefExpr', 'MemberExpr') and mp is not None
+                why = 'a namespace value it was given'
+            ctx.check('%s/%s' % (short(g), tname), ok,
+                      '%s asks %s about %s' % (inst(g), tname, why),
+                      '%s calls %s with the namespace `%s` instead of %s: the registrations / '
+                      'dict-order mode consulted are those of another namespace'
+                      % (inst(g), tname, arg.text(5), why), c.loc)
         for h in fam:
             if h.body is None:
                 continue
             for c in h.body.walk():
                 if c.kind not in CALL_KINDS and c.kind not in CTOR_KINDS:
                     continue
+                if c.kind == 'CXXOperatorCallExpr' and c.callee_name() == 'operator()' and len(c.kids) >= 2:
+                    lf = lam_vars.get(member_path(strip_casts(c.kids[1])) or '')
+                    if lf is not None:
+                        i = lam_param[id(lf)][0]
+                        args = c.kids[2:]
+                        if i < len(args) and args[i] is not None:
+                            judge(h, c, args[i], 'lambda `%s`' % member_path(strip_casts(c.kids[1])))
+                        continue
                 t = callee_func(prog, h, c)
                 if t is None or id(t) not in takers:
                     continue
@@ -541,28 +606,7 @@ def ns1(ctx):
                 arg = a[i] if i < len(a) else None
                 if arg is None:
                     continue
-                e = strip_casts(arg)
-                # a copy `std::string{ns}` of the namespace is the namespace
-                while e is not None and e.kind in CTOR_KINDS and len([k for k in e.kids if k is not None]) == 1:
-                    e = strip_casts([k for k in e.kids if k is not None][0])
-                mp = member_path(e) if e is not None else None
-                sites += 1
-                key = '%s->%s@%s' % (short(g), t.name, c.loc.split(':')[-1] if False else t.name)
-                if names:
-                    ok = mp in names
-                    why = 'its own namespace parameter'
-                elif g.record in ('optree::PyTreeSpec', 'optree::PyTreeIter') and not _static_member(prog, g):
-                    ok = mp in ('this.m_namespace', 'm_namespace')
-                    why = 'this->m_namespace'
-                else:
-                    # no namespace of its own (unpickling, bindings): anything but a constant
-                    ok = e is not None and e.kind in ('DeclRefExpr', 'MemberExpr') and mp is not None
-                    why = 'a namespace value it was given'
-                ctx.check('%s/%s' % (short(g), t.name), ok,
-                          '%s asks %s about %s' % (inst(g), t.name, why),
-                          '%s calls %s with the namespace `%s` instead of %s: the registrations / '
-                          'dict-order mode consulted are those of another namespace'
-                          % (inst(g), t.name, arg.text(5), why), c.loc)
+                judge(h, c, arg, t.name)
     ctx.analysed['namespace_call_sites'] = sites
     # the same for everything else a recursive step receives by reference (output vectors, the
     # path stack, the leaf predicate): the recursive call hands on exactly what it was given
